@@ -40,6 +40,7 @@ pub fn str_const(ctx: &Ctx, token: Token) -> StrConst {
         if c == '\\' {
             match chars.next() {
                 Some('\'') => value.push('\''),
+                Some('"') => value.push('"'),
                 Some('\\') => value.push('\\'),
                 Some('n') => value.push('\n'),
                 Some('t') => value.push('\t'),
